@@ -152,6 +152,7 @@ func runDriver(args []string) int {
 		fmt.Fprintln(os.Stderr, "load:", err)
 		return 2
 	}
+	w.RunningProp = prop
 	NeutralizeUnbacked(w, props, prop)
 	ApplySchemas(w, pc.Schemas, prop)
 	specFns, err := w.RenderSpecFns()
@@ -514,7 +515,7 @@ func (w *World) vacuityScript(vc *FnVC, nlines int, extra Term, specFns string) 
 	}
 	b.WriteString(specFns)
 	for _, l := range vc.Lines[:nlines] {
-		if strings.HasSuffix(l, " ;ob") {
+		if strings.Contains(l, " ;ob") {
 			continue
 		}
 		b.WriteString(l + "\n")
